@@ -91,6 +91,11 @@ def _format_extras(name: str, nsmap: dict) -> str:
     return nsname
 
 
+def _escape_attribute(value) -> str:
+    # Escape an attribute value for use inside double quotes
+    return escape(str(value), {'"': "&quot;"})
+
+
 def _nsp_unique(child_nsmap: dict, parent_nsmap: dict) -> dict:
     nsmap = dict()
     for child_nsp in child_nsmap:
@@ -277,19 +282,19 @@ def to_xml(node: Node, parent: Node = None, level: int = 0, skip_ns: bool = Fals
 
     attributes = ""
     if len(node.attributes) > 0:
-        attributes += " ".join([f"{k}=\"{v}\"" for k, v in node.attributes.items()])
+        attributes += " ".join([f"{k}=\"{_escape_attribute(v)}\"" for k, v in node.attributes.items()])
 
     if not skip_ns:
         if parent is None:
             if len(node.nsmap) > 0:
-                attributes += " " + " ".join([f"xmlns:{k}=\"{v}\"" for k, v in node.nsmap.items()])
+                attributes += " " + " ".join([f"xmlns:{k}=\"{_escape_attribute(v)}\"" for k, v in node.nsmap.items()])
         elif node.nsmap != parent.nsmap:
             nsmap = _nsp_unique(node.nsmap, parent.nsmap)
             if len(nsmap) > 0:
-                attributes += " " + " ".join([f"xmlns:{k}=\"{v}\"" for k, v in nsmap.items()])
+                attributes += " " + " ".join([f"xmlns:{k}=\"{_escape_attribute(v)}\"" for k, v in nsmap.items()])
 
     if len(node.extras) > 0:
-        attributes += " " + " ".join([f"{k}=\"{v}\"" for k, v in node.extras.items()])
+        attributes += " " + " ".join([f"{k}=\"{_escape_attribute(v)}\"" for k, v in node.extras.items()])
 
     if len(attributes) > 0:
         # Add final prefix-space to attribute string
